@@ -89,12 +89,16 @@ TRAdd == IsEvent("r.add") /\ RAdd(E.v) /\ RRest
 TRTake == IsEvent("r.take") /\ RTake /\ E.vals = rout' /\ RRest
 
 \* ---------------------------------------------------------------- Set
+\* elements are typed values {t, v} (Set.tla); the Set may be managed or unmanaged and may
+\* hold any mixture of types -- the reference model is the same mathematical set.
+\* s.keys: Keys(); s.keysof: KeysInt/KeysInt64/KeysUint/KeysUint64/KeysStr (t says which)
 SRest == KeepW /\ KeepC /\ KeepM /\ KeepQ /\ KeepR
 TSAdd == IsEvent("s.add") /\ SAdd(E.xs) /\ SRest
 TSRemove == IsEvent("s.remove") /\ SRemove(E.x) /\ SRest
 TSContains == IsEvent("s.contains") /\ SContains(E.x) /\ E.yes = sout'.yes /\ SRest
 TSCount == IsEvent("s.count") /\ SCount /\ E.n = sout'.n /\ SRest
 TSKeys == IsEvent("s.keys") /\ SKeys(E.keys) /\ SRest
+TSKeysOf == IsEvent("s.keysof") /\ SKeysOf(E.t, E.keys) /\ SRest
 
 TInit == WIdle /\ CIdle /\ MIdle /\ QIdle /\ RIdle /\ SIdle /\ l = 1
 TNext == \/ TReset
@@ -103,7 +107,7 @@ TNext == \/ TReset
          \/ TMSet \/ TMDel \/ TMGet \/ TMSize \/ TMRange \/ TMInfo
          \/ TQPut \/ TQTake \/ TQEmpty
          \/ TRAdd \/ TRTake
-         \/ TSAdd \/ TSRemove \/ TSContains \/ TSCount \/ TSKeys
+         \/ TSAdd \/ TSRemove \/ TSContains \/ TSCount \/ TSKeys \/ TSKeysOf
 TSpec == TInit /\ [][TNext]_tvars
 
 HW == HighWater(l)
